@@ -66,8 +66,8 @@ def _node_to_mermaid_flowchart_iter(
     if node_mapper is None:
         node_mapper = lambda node: DEFAULT_NODE_TEMPLATE.format(node=node)
     elif isinstance(node_mapper, str):
-        templ = node_mapper
-        node_mapper = lambda node: templ.format(node=node)
+        node_templ = node_mapper
+        node_mapper = lambda node: node_templ.format(node=node)
 
     if isinstance(edge_mapper, str):
         templ = edge_mapper
